@@ -102,6 +102,8 @@ type ED struct {
 	Fwd          []*ED
 	ForwardCount int // definite forwards seen since last revive (C06)
 	BySeek       bool
+	Round        int // incremented whenever a seek (possibly) re-opened this delivery: a new dead-letter round
+	FwdRound     int // forwarded copies: the source round that produced it
 	everDelivered bool
 }
 
@@ -110,7 +112,8 @@ type MSnap struct {
 	Sub    *MSub
 	Topic  *MTopic
 	T0, T1 time.Time
-	InU    map[*MMsg]int // 1 = unacked at snapshot, 0 = acked at snapshot, 2 = fuzzy
+	InU    map[*MMsg]int // by message (publish deliveries only): 1 = unacked at snapshot, 0 = acked, 2 = unknown
+	ByED   map[*ED]int   // by delivery of the snapshot's own subscription
 	Labels map[string]string
 }
 
@@ -597,10 +600,18 @@ func (m *Model) Pull(s *MSub, max int, resp []RecvMsg, t0, t1 time.Time) *Violat
 				mayDL = append(mayDL, e)
 			}
 		}
-		if e.State != stOut || e.Fuzzy || e.DLMaybe {
+		if e.State != stOut || e.Fuzzy {
 			continue
 		}
 		if !e.mustAlive(t1) || !e.mustDue(t0) {
+			continue
+		}
+		if e.DLMaybe {
+			// may already be dead-lettered; if it is definitely due for it now, an
+			// untruncated pull settles the question (it is dead-lettered by now)
+			if cfg.fullDL() && e.Seen >= int(cfg.MaxAttempts) && !(cfg.Ordered && e.Msg.Key != "") {
+				mustDL = append(mustDL, e)
+			}
 			continue
 		}
 		if cfg.Ordered && !s.OrderedToggled && e.Msg.Key != "" {
@@ -650,6 +661,12 @@ func (m *Model) Pull(s *MSub, max int, resp []RecvMsg, t0, t1 time.Time) *Violat
 			if e.CreHi.After(t1) {
 				e.CreHi = t1
 			}
+			if o := e.Origin; o != nil && o.DLMaybe {
+				// an optional forwarded copy showed up: its source was dead-lettered
+				o.State, o.DLMaybe, o.Fuzzy = stDL, false, false
+				o.SettledLo = e.CreLo
+				o.ForwardCount++
+			}
 		}
 		if e.DLMaybe {
 			e.DLMaybe = false
@@ -670,6 +687,9 @@ func (m *Model) Pull(s *MSub, max int, resp []RecvMsg, t0, t1 time.Time) *Violat
 	}
 	// dead-lettering performed by this pull
 	for _, e := range mustDL {
+		if e.State != stOut {
+			continue // settled meanwhile (an optional forwarded copy of it just showed up)
+		}
 		if limitBound {
 			m.deadLetterMaybe(e, t0)
 		} else {
@@ -678,7 +698,7 @@ func (m *Model) Pull(s *MSub, max int, resp []RecvMsg, t0, t1 time.Time) *Violat
 		}
 	}
 	for _, e := range mayDL {
-		if (e.State == stOut || e.Fuzzy) && !e.DLMaybe && !contains(mustDL, e) && !seen[e] {
+		if (e.State == stOut || e.Fuzzy) && !contains(mustDL, e) && !seen[e] {
 			m.deadLetterMaybe(e, t0)
 		}
 	}
@@ -731,9 +751,12 @@ func (m *Model) deadLetter(e *ED, t0, t1 time.Time) {
 		}
 		var ex *ED
 		for _, f := range e.Fwd {
-			if f.Sub == ds && f.Fuzzy && f.Cause == "dlforward-maybe" {
+			if f.Sub == ds && f.FwdRound == e.Round {
 				ex = f
 			}
+		}
+		if ex != nil && wasMaybe && !(ex.Fuzzy && ex.Cause == "dlforward-maybe") {
+			continue // its copy has been accounted for already
 		}
 		if ex != nil && wasMaybe {
 			// resolved: either forwarded earlier or now
@@ -745,7 +768,18 @@ func (m *Model) deadLetter(e *ED, t0, t1 time.Time) {
 			ex.RetHi = t1.Add(ds.Cfg.Retention)
 			continue
 		}
+		if wasMaybe {
+			// the subscription did not exist (or did not match) when the move may first
+			// have happened: it got a copy only if the move happens now
+			f := m.newED(ds, e.Msg, e, t0, farFuture, "dlforward-maybe")
+			f.Fuzzy = true
+			f.LeaseHi, f.RetHi = farFuture, farFuture
+			f.FwdRound = e.Round
+			e.Fwd = append(e.Fwd, f)
+			continue
+		}
 		f := m.newED(ds, e.Msg, e, t0, t1, "dlforward")
+		f.FwdRound = e.Round
 		e.Fwd = append(e.Fwd, f)
 		m.probe("dl_forwarded")
 	}
@@ -764,7 +798,7 @@ func (m *Model) deadLetterMaybe(e *ED, t0 time.Time) {
 		}
 		has := false
 		for _, f := range e.Fwd {
-			if f.Sub == ds && f.Fuzzy {
+			if f.Sub == ds && f.FwdRound == e.Round {
 				has = true
 			}
 		}
@@ -775,6 +809,7 @@ func (m *Model) deadLetterMaybe(e *ED, t0 time.Time) {
 		f.Fuzzy = true
 		f.LeaseHi = farFuture
 		f.RetHi = farFuture
+		f.FwdRound = e.Round
 		e.Fwd = append(e.Fwd, f)
 	}
 }
@@ -797,7 +832,7 @@ func (m *Model) Sweep(limit int, t0, t1 time.Time) {
 				continue
 			}
 			may = append(may, e)
-			if !e.Fuzzy && !e.DLMaybe && e.Seen >= int(s.Cfg.MaxAttempts) && e.mustAlive(t1) && e.mustDue(t0) {
+			if !e.Fuzzy && e.State == stOut && e.Seen >= int(s.Cfg.MaxAttempts) && e.mustAlive(t1) && e.mustDue(t0) {
 				must = append(must, e)
 			}
 		}
@@ -807,7 +842,7 @@ func (m *Model) Sweep(limit int, t0, t1 time.Time) {
 		if contains(must, e) && !bound {
 			m.deadLetter(e, t0, t1)
 			m.probe("dl_via_sweep")
-		} else if (e.State == stOut || e.Fuzzy) && !e.DLMaybe {
+		} else if e.State == stOut || e.Fuzzy {
 			m.deadLetterMaybe(e, t0)
 		}
 	}
@@ -901,6 +936,7 @@ func (m *Model) revive(e *ED, t0, t1 time.Time) {
 	e.Cause = "seek"
 	e.BySeek = true
 	e.ForwardCount = 0
+	e.Round++
 	m.probe("seek_revived")
 }
 
@@ -909,6 +945,9 @@ func (m *Model) revive(e *ED, t0, t1 time.Time) {
 func (m *Model) fuzzyBySeek(e *ED, t0, t1 time.Time) {
 	e.Fuzzy = true
 	e.BySeek = true
+	if e.State != stOut {
+		e.Round++ // may have been re-opened: whatever it forwarded before is a closed round
+	}
 	if t0.Before(e.LeaseLo) {
 		e.LeaseLo = t0
 	}
@@ -976,25 +1015,31 @@ func (m *Model) SeekTime(s *MSub, T time.Time, t0, t1 time.Time) {
 }
 
 func (m *Model) CreateSnap(name string, s *MSub, labels map[string]string, t0, t1 time.Time) *MSnap {
-	sn := &MSnap{Name: name, Sub: s, Topic: s.Topic, T0: t0, T1: t1, InU: map[*MMsg]int{}, Labels: labels}
+	sn := &MSnap{Name: name, Sub: s, Topic: s.Topic, T0: t0, T1: t1, InU: map[*MMsg]int{}, ByED: map[*ED]int{}, Labels: labels}
+	count := map[*MMsg]int{}
+	for _, e := range s.EDs {
+		if e.State != stGone {
+			count[e.Msg]++
+		}
+	}
 	for _, e := range s.EDs {
 		if e.State == stGone {
 			continue
 		}
+		st := 0
 		switch {
-		case e.Fuzzy || e.DLMaybe:
-			sn.InU[e.Msg] = 2
+		case e.Fuzzy || e.DLMaybe || count[e.Msg] > 1:
+			// several deliveries of one message on this subscription (dead-letter cycle):
+			// the text does not say which one the snapshot refers to
+			st = 2
 		case e.State == stOut && e.mustAlive(t1):
-			sn.InU[e.Msg] = 1
-		case e.State == stOut && e.mayAlive(t0):
-			sn.InU[e.Msg] = 2
+			st = 1
 		case e.State == stOut:
-			sn.InU[e.Msg] = 2 // expired, unacked: text does not say
-		default:
-			sn.InU[e.Msg] = 0
+			st = 2 // expired or in the boundary zone, unacked: the text does not say
 		}
-		if e.Origin != nil && sn.InU[e.Msg] == 0 {
-			// forwarded copies: see DESIGN 7 (to watch); keep exact
+		sn.ByED[e] = st
+		if e.Origin == nil && count[e.Msg] == 1 {
+			sn.InU[e.Msg] = st
 		}
 	}
 	m.Snaps[name] = sn
@@ -1018,20 +1063,22 @@ func (m *Model) SeekSnap(s *MSub, sn *MSnap, t0, t1 time.Time) {
 			m.fuzzyBySeek(e, t0, t1)
 			continue
 		}
-		want := -1 // 1 outstanding, 0 acked, 2 unknown
-		if st, ok := sn.InU[e.Msg]; ok && (own || e.Origin == nil) && !e.CreLo.After(sn.T1) {
-			want = st
-			if !own && st != 2 {
-				// sibling: its own delivery of that message existed at snapshot time
+		want := 2 // 1 outstanding, 0 acknowledged, 2 the text does not say
+		msgAfter := e.Msg.T0.After(sn.T1)
+		if own {
+			if st, ok := sn.ByED[e]; ok {
 				want = st
+			} else if e.CreLo.After(sn.T1) && (e.Origin == nil || msgAfter) {
+				want = 1
 			}
-		} else if e.CreLo.After(sn.T1) {
+		} else if e.Origin == nil {
+			if st, ok := sn.InU[e.Msg]; ok && !e.CreLo.After(sn.T1) {
+				want = st
+			} else if msgAfter {
+				want = 1
+			}
+		} else if msgAfter {
 			want = 1
-		} else if !e.CreHi.After(sn.T0) {
-			// existed before the snapshot but not known to it (sibling-only message)
-			want = 2
-		} else {
-			want = 2
 		}
 		switch want {
 		case 1:
